@@ -424,6 +424,9 @@ def run(ck: Check) -> None:
     from . import tpl_campaign
 
     ck.translate("TemplateAst", template_ast.generate())
+    from . import tpl_search
+
+    ck.search_hooks.append(tpl_search.search_c10)
     ck.prove()
     ck.assumptions += [
         "CPython's lexer is modelled by Dcg/Py/Lex.lean (validated in this run against tokenize+literal_eval)",
